@@ -346,3 +346,79 @@ theorem mergeRec_forall (merge : α → α → Option α) (P : α → Prop)
     · exact pass_forall merge P hm items h
 
 end Svgbob.G
+
+namespace Svgbob.G
+variable {α β : Type}
+
+/-! ### denotation: what `merge` preserves up to permutation, the loop preserves
+
+`P` is an invariant of the items (preserved by `merge`) under which the denotation law holds. -/
+
+theorem mergeIntoRev_perm (merge : α → α → Option α) (D : α → List β) (P : α → Prop)
+    (hD : ∀ g it m, P g → P it → merge g it = some m → (D m).Perm (D g ++ D it))
+    (gs : List α) (it : α) (r : List α) (hg : ∀ g ∈ gs, P g) (hi : P it)
+    (h : mergeIntoRev merge gs it = some r) :
+    (r.flatMap D).Perm (gs.flatMap D ++ D it) := by
+  induction gs generalizing r with
+  | nil => simp [mergeIntoRev] at h
+  | cons g gs ih =>
+    simp only [mergeIntoRev] at h
+    split at h
+    · rename_i gs' hgs'
+      cases h
+      simp only [List.flatMap_cons, List.append_assoc]
+      exact List.Perm.append_left _ (ih gs' (fun y hy => hg y (List.mem_cons_of_mem _ hy)) hgs')
+    · split at h
+      · rename_i m hm
+        cases h
+        simp only [List.flatMap_cons]
+        have h1 := hD g it m (hg g (by simp)) hi hm
+        refine (List.Perm.append_right _ h1).trans ?_
+        rw [List.append_assoc, List.append_assoc]
+        exact List.Perm.append_left _ List.perm_append_comm
+      · cases h
+
+theorem step_perm (merge : α → α → Option α) (D : α → List β) (P : α → Prop)
+    (hD : ∀ g it m, P g → P it → merge g it = some m → (D m).Perm (D g ++ D it))
+    (acc : List α) (it : α) (ha : ∀ g ∈ acc, P g) (hi : P it) :
+    ((step merge acc it).flatMap D).Perm (acc.flatMap D ++ D it) := by
+  unfold step
+  split
+  · rename_i r h; exact mergeIntoRev_perm merge D P hD acc it r ha hi h
+  · simp
+
+theorem pass_perm (merge : α → α → Option α) (D : α → List β) (P : α → Prop)
+    (hm : ∀ g it m, merge g it = some m → P g → P it → P m)
+    (hD : ∀ g it m, P g → P it → merge g it = some m → (D m).Perm (D g ++ D it))
+    (items : List α) (hp : ∀ x ∈ items, P x) :
+    ((pass merge items).flatMap D).Perm (items.flatMap D) := by
+  unfold pass
+  suffices h : ∀ acc, (∀ g ∈ acc, P g) → ((items.foldl (step merge) acc).flatMap D).Perm
+      (acc.flatMap D ++ items.flatMap D) by simpa using h [] (by simp)
+  induction items with
+  | nil => intro acc _; simp
+  | cons x xs ih =>
+    intro acc ha
+    simp only [List.foldl_cons, List.flatMap_cons]
+    have hx := hp x (by simp)
+    refine (ih (fun y hy => hp y (List.mem_cons_of_mem _ hy)) (step merge acc x)
+      (step_forall merge P hm acc x ha hx)).trans ?_
+    rw [← List.append_assoc]
+    exact List.Perm.append_right _ (step_perm merge D P hD acc x ha hx)
+
+/-- **Denotation preservation**: whatever `merge` preserves up to permutation is preserved by
+`merge_recursive`. -/
+theorem mergeRec_perm (merge : α → α → Option α) (D : α → List β) (P : α → Prop)
+    (hm : ∀ g it m, merge g it = some m → P g → P it → P m)
+    (hD : ∀ g it m, P g → P it → merge g it = some m → (D m).Perm (D g ++ D it))
+    (n : Nat) (items : List α) (hp : ∀ x ∈ items, P x) :
+    ((mergeRec merge n items).flatMap D).Perm (items.flatMap D) := by
+  induction n generalizing items with
+  | zero => simp [mergeRec]
+  | succ n ih =>
+    simp only [mergeRec]
+    split
+    · exact (ih _ (pass_forall merge P hm items hp)).trans (pass_perm merge D P hm hD items hp)
+    · exact pass_perm merge D P hm hD items hp
+
+end Svgbob.G
